@@ -232,7 +232,47 @@ def rewrite_msg_macros(body, unit, log):
     return out
 
 
+def rewrite_slice_closures(body, unit, log):
+    """R17/R18 (only for units that declare `//@ closures <ElemType> <IndexType>`): Verus has no specification for
+    `slice::Iter::position / rposition`, and an unannotated closure carries no specification. Mechanical rewrite:
+      R17  `<path>.iter().position(|v| EXPR)`  ->  `slice_position(&<path>, |v: &Elem| -> (b: bool) ensures b == (EXPR) { EXPR })`
+           (`rposition` -> `slice_rposition`); the helpers are ordinary loops over the vector, verified in the template;
+           the closure keeps its body and gets that same body as its (Verus-checked) postcondition;
+      R18  `.map(|v| EXPR)` on the resulting Option<Index> -> `.map(|v: Index| -> (o: Index) requires (EXPR) <= Index::MAX ensures o == (EXPR) { EXPR })`.
+    EXPR must be brace-free. Trusted: Iterator::position / rposition on a slice iterator visit the elements front-to-back /
+    back-to-front and return the index (from the front) of the first match."""
+    elem, idx = unit['closures'][0], (unit['closures'][1] if len(unit['closures']) > 1 else 'usize')
+    pat = re.compile(r'((?:\w+\s*\.\s*)*\w+)\s*\.\s*iter\(\)\s*\.\s*(r?position)\(')
+    out, i, n = '', 0, 0
+    while True:
+        m = pat.search(body, i)
+        if not m:
+            out += body[i:]
+            break
+        close = extract.match_brace(body, m.end() - 1, '(', ')')
+        inner = body[m.end():close].strip()
+        mc = re.match(r'\|\s*(\w+)\s*\|\s*(.+)$', inner, re.S)
+        if not mc or '{' in mc.group(2) or ';' in mc.group(2):
+            raise Undecided(f"unit {unit['id']}: closure passed to {m.group(2)} is outside the R17 subset: {inner[:80]!r}")
+        v, ex = mc.group(1), ' '.join(mc.group(2).split())
+        recv = re.sub(r'\s+', '', m.group(1))
+        out += body[i:m.start()] + f'slice_{m.group(2)}(&{recv}, |{v}: &{elem}| -> (b: bool) ensures b == ({ex}) {{ {ex} }})'
+        i = close + 1
+        n += 1
+    if n:
+        log.append(f"R17 x{n} in {unit['id']} (slice iter position/rposition -> verified loop helper; closure annotated with its own body)")
+    body = out
+    pat = re.compile(r'\.\s*map\(\s*\|\s*(\w+)\s*\|\s*([^(){}|;]+?)\s*\)')
+    cnt = len(pat.findall(body))
+    if cnt:
+        body = pat.sub(lambda m: f'.map(|{m.group(1)}: {idx}| -> (o: {idx}) requires ({m.group(2)}) <= {idx}::MAX ensures o == ({m.group(2)}) {{ {m.group(2)} }})', body)
+        log.append(f"R18 x{cnt} in {unit['id']} (Option::map closure annotated with its own body)")
+    return body
+
+
 def rewrite_body(body, unit, log):
+    if unit.get('closures'):
+        body = rewrite_slice_closures(body, unit, log)
     body = rewrite_require_macros(body, unit, log)
     body = rewrite_msg_macros(body, unit, log)
     if not unit.get('keep_debug_asserts'):
@@ -269,8 +309,14 @@ def rewrite_body(body, unit, log):
         if len(braces) != unit.get('nloops', len(braces)):
             raise Undecided(f"unit {unit['id']}: loop count changed")
     for where, sub, text in unit.get('inserts', []):
+        # every line of inserted ghost text carries the marker `//@ghost` (see classify: a failing assert or lemma
+        # precondition inside a proof hint is a failed PROOF STEP, not a failed obligation of the repository code)
+        text = '\n'.join(l + ' //@ghost' for l in text.split('\n'))
         if where == 'top':
             body = '\n' + text + '\n' + body
+            continue
+        if where == 'bottom':   # only for functions returning (): appended after the last statement
+            body = body.rstrip() + '\n' + text + '\n'
             continue
         idxs = [m.start() for m in re.finditer(re.escape(sub), body)]
         if len(idxs) != 1:
@@ -335,9 +381,13 @@ def _parse_lines(lines, path, out):  # list of ('text', str) | ('prelude', width
                     u['inserts'].append((key, a, b))
                 elif key == 'top':
                     u['inserts'].append(('top', '', val[2:].strip() if val.startswith('::') else val))
+                elif key == 'bottom':
+                    u['inserts'].append(('bottom', '', val[2:].strip() if val.startswith('::') else val))
                 elif key == 'cut_after':
                     a, _, b = val.partition(' :: ')
                     u['cut_after'] = (a, b)
+                elif key == 'closures':
+                    u['closures'] = val.split()
                 elif key == 'noreplay' or key == 'replay':
                     u[key] = val
                 else:
@@ -529,7 +579,14 @@ def classify(res, meta):
             if ob is None:
                 undecided.append(rendered)
             else:
-                failed.setdefault(ob, []).append(rendered)
+                # hint failure: `assert` / lemma precondition whose reported location is a line of inserted ghost text
+                gl = meta.get('lines') or meta['text'].split('\n')
+                meta['lines'] = gl
+                is_hint = False
+                if (msg.startswith('assertion failed') or msg.startswith('precondition not satisfied')) and pick is not None:
+                    ln = pick['line_start']
+                    is_hint = 0 < ln <= len(gl) and '//@ghost' in gl[ln - 1]
+                failed.setdefault(ob, []).append(('[proof-hint step] ' if is_hint else '') + rendered)
             continue
         undecided.append(rendered)
     vr = res['json'].get('verification-results', {})
